@@ -343,7 +343,9 @@ func RunPolicy(env *Env, plan *PolicyPlan) {
 			cr := env.R.Fork()
 			var pool []string
 			for _, cd := range cands {
-				if cd.c.Kind != "self" && cd.c.Port != 0 {
+				// never the candidates that must stay unknown to a private torrent: the oracle
+				// "dialled an address it can only know from pex/dht" would lose its premise
+				if cd.c.Kind != "self" && cd.c.Port != 0 && cd.c.Via != "pex" && cd.c.Via != "dht" {
 					pool = append(pool, cd.addr)
 				}
 			}
